@@ -4,9 +4,9 @@
    g : [ids -> [kind, children, early, regAs]]
        children : the types the code recurses into, in order (struct: field types; named: the
                   underlying type; array/slice: element; map: key, element; pointer: element;
-                  union: members; alias: as its target)
+                  union: members; alias: the type it denotes, whose node it shares)
        early    : createType registers an incomplete node before recursing (struct, array, slice, map)
-       regAs    : the id that early registration uses (an alias registers its target)
+       regAs    : the id that early registration uses (the type itself)
    One action per step of the real recursion; these are the events hook H1 emits:
        Enter(t)  handleType(t) misses the memo table and starts createType(t)
        Hit(t)    handleType(t) finds t in the memo table (complete or not)
